@@ -474,6 +474,9 @@ pub assume_specification<T, A: core::alloc::Allocator> [alloc::collections::VecD
 /// where the ring buffer of a VecDeque wraps around (unknown, but fixed while the deque is not modified)
 pub uninterp spec fn vd_split<T, A: core::alloc::Allocator>(v: &alloc::collections::VecDeque<T, A>) -> int;
 
+pub assume_specification<T, A: core::alloc::Allocator, F: FnMut(&T) -> bool> [alloc::collections::VecDeque::<T, A>::retain] (_0: &mut alloc::collections::VecDeque<T, A>, _1: F)
+    ensures final(_0)@ == old(_0)@.filter(|x: T| _1.ensures((&x,), true));
+
 /*@@WOVEN@@*/
 
 } // verus!
